@@ -1,7 +1,1115 @@
-//! C11 — not built yet (stub keeps the registry stable while modules are written in parallel).
+//! C11 — scheduled tasks run exactly once at exactly their sample time.
+//!
+//! A case is a TASK MULTISET described by a `Spec`: task definitions (named functions, inline
+//! lambdas, letrec closures made by a "maker" function) whose only effect is commutative (own
+//! counter += 1, shared accumulator += own power of two), scheduling sites at global scope, in
+//! `dsp` (at one given sample) and inside running tasks (self-rescheduling chains, spawns).
+//! The spec is rendered to a mimium program and simulated by the reference schedule model below;
+//! the VM must reproduce the model bit for bit, the WASM runtime must reproduce the VM.
 
-use crate::engine::case::Prop;
+use crate::engine::case::*;
+use crate::engine::rng::hash64;
+use crate::engine::tape::Gen;
+use crate::runners::exec::{self, canon, Exec, Inputs, RunOpts};
+use serde_json::{json, Value};
+
+pub struct C11;
 
 pub fn prop() -> Option<&'static dyn Prop> {
-    None
+    Some(&C11)
+}
+
+/// WASM: closures allocated while a sample is being processed (in dsp or in a running task) live
+/// in linear memory that is rewound when dsp / the task / the tick returns, although the scheduler
+/// still holds their address; the next allocation overwrites them.
+pub const KF_WASM_TICK_CLOSURE: &str = "C11-wasm-tick-closure-memory-reused";
+
+const MAX_RUNS: usize = 3000;
+const MAX_TASKS: usize = 8;
+
+// ------------------------------------------------------------------------------------------ spec
+
+#[derive(Clone, Debug, PartialEq)]
+struct Chain {
+    /// period added to `now` (or to the task's own absolute-time variable)
+    p: f64,
+    /// true: `tt = tt + p; f@tt` (fractions accumulate), false: `f@(now + p)`
+    abs: bool,
+    /// reschedule only while the own counter is below this
+    limit: Option<u32>,
+    via: u8,
+}
+
+#[derive(Clone, Debug, PartialEq)]
+struct Spawn {
+    to: usize,
+    d: f64,
+    /// only on the k-th run of the spawning task
+    on: Option<u32>,
+    via: u8,
+}
+
+#[derive(Clone, Debug, PartialEq)]
+struct TaskSpec {
+    /// 0 = named top-level function, 1 = inline lambda written at every site, 2 = letrec closure
+    /// with a local counter made by a maker function (scheduled once, inside the maker)
+    form: u8,
+    chain: Option<Chain>,
+    spawns: Vec<Spawn>,
+}
+
+/// a scheduling site at global scope; for maker tasks this is the maker call (the `@` is inside)
+#[derive(Clone, Debug, PartialEq)]
+struct GSite {
+    task: usize,
+    /// true: literal time `t`; false: `now + t` (now is 0 at global scope)
+    abs: bool,
+    t: f64,
+    via: u8,
+}
+
+#[derive(Clone, Debug, PartialEq)]
+struct DSite {
+    at: u64,
+    task: usize,
+    d: f64,
+    via: u8,
+}
+
+#[derive(Clone, Debug, PartialEq)]
+struct Spec {
+    n: u64,
+    mono: bool,
+    tasks: Vec<TaskSpec>,
+    globals: Vec<GSite>,
+    dsps: Vec<DSite>,
+}
+
+fn opt_u(v: &Value) -> Option<u32> {
+    v.as_u64().map(|x| x as u32)
+}
+
+impl Spec {
+    fn to_json(&self) -> Value {
+        json!({
+            "n": self.n,
+            "mono": self.mono,
+            "tasks": self.tasks.iter().map(|t| json!({
+                "form": t.form,
+                "chain": t.chain.as_ref().map(|c| json!({"p": c.p, "abs": c.abs, "limit": c.limit, "via": c.via})),
+                "spawns": t.spawns.iter().map(|s| json!({"to": s.to, "d": s.d, "on": s.on, "via": s.via})).collect::<Vec<_>>(),
+            })).collect::<Vec<_>>(),
+            "globals": self.globals.iter().map(|s| json!({"task": s.task, "abs": s.abs, "t": s.t, "via": s.via})).collect::<Vec<_>>(),
+            "dsps": self.dsps.iter().map(|s| json!({"at": s.at, "task": s.task, "d": s.d, "via": s.via})).collect::<Vec<_>>(),
+        })
+    }
+    fn from_json(v: &Value) -> Option<Spec> {
+        let mut tasks = vec![];
+        for t in v.get("tasks")?.as_array()? {
+            let chain = match t.get("chain") {
+                Some(c) if !c.is_null() => Some(Chain {
+                    p: c.get("p")?.as_f64()?,
+                    abs: c.get("abs").and_then(|x| x.as_bool()).unwrap_or(false),
+                    limit: c.get("limit").and_then(opt_u),
+                    via: c.get("via").and_then(|x| x.as_u64()).unwrap_or(0) as u8,
+                }),
+                _ => None,
+            };
+            let mut spawns = vec![];
+            if let Some(a) = t.get("spawns").and_then(|x| x.as_array()) {
+                for s in a {
+                    spawns.push(Spawn { to: s.get("to")?.as_u64()? as usize, d: s.get("d")?.as_f64()?, on: s.get("on").and_then(opt_u), via: s.get("via").and_then(|x| x.as_u64()).unwrap_or(0) as u8 });
+                }
+            }
+            tasks.push(TaskSpec { form: t.get("form").and_then(|x| x.as_u64()).unwrap_or(0) as u8, chain, spawns });
+        }
+        let mut globals = vec![];
+        if let Some(a) = v.get("globals").and_then(|x| x.as_array()) {
+            for s in a {
+                globals.push(GSite { task: s.get("task")?.as_u64()? as usize, abs: s.get("abs").and_then(|x| x.as_bool()).unwrap_or(true), t: s.get("t")?.as_f64()?, via: s.get("via").and_then(|x| x.as_u64()).unwrap_or(0) as u8 });
+            }
+        }
+        let mut dsps = vec![];
+        if let Some(a) = v.get("dsps").and_then(|x| x.as_array()) {
+            for s in a {
+                dsps.push(DSite { at: s.get("at")?.as_u64()?, task: s.get("task")?.as_u64()? as usize, d: s.get("d")?.as_f64()?, via: s.get("via").and_then(|x| x.as_u64()).unwrap_or(0) as u8 });
+            }
+        }
+        Some(Spec { n: v.get("n")?.as_u64()?, mono: v.get("mono").and_then(|x| x.as_bool()).unwrap_or(false), tasks, globals, dsps })
+    }
+
+    /// structural well-formedness (everything the renderer and the model rely on)
+    fn validate(&self) -> Result<(), String> {
+        let nt = self.tasks.len();
+        if nt == 0 || nt > MAX_TASKS {
+            return Err("task-count".into());
+        }
+        if self.n == 0 || self.n > 512 {
+            return Err("run-length".into());
+        }
+        let okf = |x: f64| x.is_finite() && x >= 0.0 && x < 1e15;
+        for (i, t) in self.tasks.iter().enumerate() {
+            if t.form > 2 {
+                return Err("form".into());
+            }
+            if let Some(c) = &t.chain {
+                if t.form == 1 {
+                    return Err("inline-lambda-cannot-name-itself".into());
+                }
+                if !okf(c.p) || c.p < 1.0 || c.via > 2 {
+                    return Err("chain-period".into());
+                }
+                if c.abs && t.form != 0 {
+                    return Err("abs-chain-form".into());
+                }
+            }
+            for s in &t.spawns {
+                if s.to <= i || s.to >= nt || !okf(s.d) || s.d < 1.0 || s.via > 2 {
+                    return Err("spawn".into());
+                }
+                if !self.spawnable(s.to) {
+                    return Err("spawn-target".into());
+                }
+            }
+            let sites = self.globals.iter().filter(|g| g.task == i).count();
+            let dsites = self.dsps.iter().filter(|g| g.task == i).count();
+            if t.form == 2 && sites != 1 {
+                return Err("maker-needs-exactly-one-site".into());
+            }
+            if self.abs_chain(i) && (sites != 1 || dsites != 0) {
+                return Err("abs-chain-needs-exactly-one-global-site".into());
+            }
+        }
+        for g in &self.globals {
+            if g.task >= nt || !okf(g.t) || g.via > 2 {
+                return Err("global-site".into());
+            }
+            if self.abs_chain(g.task) && !g.abs {
+                return Err("abs-chain-site".into());
+            }
+        }
+        for d in &self.dsps {
+            if d.task >= nt || !okf(d.d) || d.d < 1.0 || d.via > 2 || d.at >= self.n || !self.spawnable(d.task) {
+                return Err("dsp-site".into());
+            }
+        }
+        Ok(())
+    }
+    fn abs_chain(&self, i: usize) -> bool {
+        self.tasks[i].chain.as_ref().is_some_and(|c| c.abs)
+    }
+    /// may be scheduled from dsp / from another task
+    fn spawnable(&self, i: usize) -> bool {
+        self.tasks[i].form != 2 && !self.abs_chain(i)
+    }
+}
+
+// ----------------------------------------------------------------------------------------- model
+
+#[derive(Clone, Debug)]
+struct Inst {
+    when: u64,
+    task: usize,
+    /// created while a sample was being processed (by dsp or by a running task)
+    tick: bool,
+    /// length of the self-rescheduling lineage ending in this instance
+    depth: u32,
+}
+
+#[derive(Default, Debug)]
+struct Sim {
+    /// cumulative run counts per task as seen by dsp of each sample
+    counts: Vec<Vec<u64>>,
+    runs: usize,
+    sched_global: usize,
+    sched_dsp: usize,
+    sched_task: usize,
+    equal_times: bool,
+    fractional: bool,
+    max_chain: u32,
+    fanout: bool,
+    far_future: bool,
+    max_pending: usize,
+    /// the WASM runtime can be expected to agree (see KF_WASM_TICK_CLOSURE)
+    wasm_safe: bool,
+    /// digit width per task for the one-channel encoding
+    bits: Vec<u32>,
+}
+
+struct Model<'a> {
+    s: &'a Spec,
+    pending: Vec<Inst>,
+    c: Vec<u64>,
+    tt: Vec<f64>,
+    sim: Sim,
+}
+
+impl<'a> Model<'a> {
+    /// `cur` = the sample being processed (0 at global scope); the documented precondition is
+    /// "later than the current sample", and the task must be due at the *start* of a sample
+    fn schedule(&mut self, cur: u64, time: f64, task: usize, origin: u8, depth: u32) -> Result<(), String> {
+        let when = time as u64; // the runtimes' own truncation (`as u64`)
+        if when <= cur {
+            return Err(format!("precondition: time {time} not after sample {cur}"));
+        }
+        if time.fract() != 0.0 {
+            self.sim.fractional = true;
+        }
+        if when >= self.s.n {
+            self.sim.far_future = true;
+        }
+        match origin {
+            0 => self.sim.sched_global += 1,
+            1 => self.sim.sched_dsp += 1,
+            _ => self.sim.sched_task += 1,
+        }
+        self.pending.push(Inst { when, task, tick: origin != 0, depth });
+        self.sim.max_pending = self.sim.max_pending.max(self.pending.len());
+        if self.pending.len() > MAX_RUNS {
+            return Err("too-many-pending".into());
+        }
+        Ok(())
+    }
+    fn tick_pending_after(&self, t: u64) -> usize {
+        self.pending.iter().filter(|i| i.tick && i.when > t).count()
+    }
+    /// one activation created `k` closures while `others` tick-created closures were still referenced
+    fn note_alloc(&mut self, k: usize, others: usize) {
+        if k >= 2 || (k >= 1 && others > 0) {
+            self.sim.wasm_safe = false;
+        }
+    }
+    fn run(&mut self, t: u64, inst: &Inst, due_tick: usize) -> Result<(), String> {
+        let i = inst.task;
+        self.c[i] += 1;
+        self.sim.runs += 1;
+        if self.sim.runs > MAX_RUNS {
+            return Err("too-many-runs".into());
+        }
+        self.sim.max_chain = self.sim.max_chain.max(inst.depth);
+        let before = self.tick_pending_after(t);
+        let mut created = 0usize;
+        let now = t as f64;
+        let task = self.s.tasks[i].clone();
+        for sp in &task.spawns {
+            if sp.on.map_or(true, |k| self.c[i] == k as u64) {
+                self.schedule(t, now + sp.d, sp.to, 2, 1)?;
+                created += 1;
+            }
+        }
+        if let Some(ch) = &task.chain {
+            // the absolute-time variable advances on every run, rescheduled or not
+            if ch.abs {
+                self.tt[i] += ch.p;
+            }
+            if ch.limit.map_or(true, |l| self.c[i] < l as u64) {
+                let time = if ch.abs { self.tt[i] } else { now + ch.p };
+                self.schedule(t, time, i, 2, inst.depth + 1)?;
+                created += 1;
+            }
+        }
+        if created >= 2 {
+            self.sim.fanout = true;
+        }
+        let others = before + due_tick - (inst.tick as usize);
+        self.note_alloc(created, others);
+        Ok(())
+    }
+}
+
+fn simulate(s: &Spec) -> Result<Sim, String> {
+    s.validate()?;
+    let nt = s.tasks.len();
+    let mut m = Model { s, pending: vec![], c: vec![0; nt], tt: vec![0.0; nt], sim: Sim { wasm_safe: true, ..Default::default() } };
+    // global scope, in textual order
+    for g in &s.globals {
+        let time = if g.abs { g.t } else { 0.0 + g.t };
+        if s.abs_chain(g.task) {
+            m.tt[g.task] = g.t;
+        }
+        m.schedule(0, time, g.task, 0, 1)?;
+    }
+    for t in 0..s.n {
+        if m.pending.iter().any(|i| i.when < t) {
+            return Err("model-internal: overdue task".into());
+        }
+        let mut due = vec![];
+        let mut k = 0;
+        while k < m.pending.len() {
+            if m.pending[k].when == t {
+                due.push(m.pending.remove(k));
+            } else {
+                k += 1;
+            }
+        }
+        if due.len() >= 2 {
+            m.sim.equal_times = true;
+        }
+        let due_tick = due.iter().filter(|i| i.tick).count();
+        for inst in &due {
+            m.run(t, inst, due_tick)?;
+        }
+        m.sim.counts.push(m.c.clone());
+        // dsp of sample t
+        let before = m.tick_pending_after(t);
+        let mut created = 0;
+        for d in s.dsps.iter().filter(|d| d.at == t) {
+            m.schedule(t, t as f64 + d.d, d.task, 1, 1)?;
+            created += 1;
+        }
+        m.note_alloc(created, before);
+    }
+    let mut sim = m.sim;
+    if !s.mono && sim.sched_dsp + sim.sched_task > 0 {
+        // the output tuple itself is allocated on every sample
+        sim.wasm_safe = false;
+    }
+    let last = sim.counts.last().cloned().unwrap_or_default();
+    sim.bits = last.iter().map(|c| (64 - (c + 2).leading_zeros()) + 1).collect();
+    Ok(sim)
+}
+
+// -------------------------------------------------------------------------------------- renderer
+
+fn num(x: f64) -> String {
+    format!("{x:?}")
+}
+
+struct Rend<'a> {
+    s: &'a Spec,
+    mono: bool,
+    weights: Vec<f64>,
+}
+
+impl<'a> Rend<'a> {
+    fn counter(&self, i: usize) -> String {
+        if self.s.tasks[i].form == 2 { "x".to_string() } else { format!("c{i}") }
+    }
+    fn selfname(&self, i: usize) -> String {
+        if self.s.tasks[i].form == 2 { "g".to_string() } else { format!("t{i}") }
+    }
+    /// the statements of task `i`, each on its own line with the given indentation
+    fn body(&self, i: usize, ind: &str) -> String {
+        let t = &self.s.tasks[i];
+        let c = self.counter(i);
+        let mut l = vec![format!("{ind}{c} = {c} + 1.0")];
+        if self.mono {
+            l.push(format!("{ind}acc = acc + {}", num(self.weights[i])));
+        }
+        let inner = format!("{ind}    ");
+        for sp in &t.spawns {
+            let site = self.site(sp.to, &format!("now + {}", num(sp.d)), sp.via, &inner, false);
+            match sp.on {
+                None => l.push(format!("{ind}{site}")),
+                Some(k) => l.push(format!("{ind}if ({c} == {}) {{ {site} }} else {{ nop() }}", num(k as f64))),
+            }
+        }
+        if let Some(ch) = &t.chain {
+            let me = self.selfname(i);
+            let time = if ch.abs {
+                l.push(format!("{ind}tt{i} = tt{i} + {}", num(ch.p)));
+                format!("tt{i}")
+            } else {
+                format!("now + {}", num(ch.p))
+            };
+            let site = self.site_named(&me, &time, ch.via, ch.abs);
+            match ch.limit {
+                None => l.push(format!("{ind}{site}")),
+                Some(k) => l.push(format!("{ind}if ({c} < {}) {{ {site} }} else {{ nop() }}", num(k as f64))),
+            }
+        }
+        l.join("\n")
+    }
+    fn site_named(&self, name: &str, time: &str, via: u8, bare_time: bool) -> String {
+        let at = if bare_time { time.to_string() } else { format!("({time})") };
+        match via {
+            1 => format!("_mimium_schedule_at({time}, {name})"),
+            2 => format!("| |{{ {name}() }}@{at}"),
+            _ => format!("{name}@{at}"),
+        }
+    }
+    /// a scheduling expression for task `j` at `time` (source text of the time expression)
+    fn site(&self, j: usize, time: &str, via: u8, ind: &str, bare_time: bool) -> String {
+        if self.s.tasks[j].form == 1 {
+            let at = if bare_time { time.to_string() } else { format!("({time})") };
+            let close = &ind[..ind.len().saturating_sub(4)];
+            let b = self.body(j, ind);
+            if via == 1 { format!("_mimium_schedule_at({time}, | |{{\n{b}\n{close}}})") } else { format!("| |{{\n{b}\n{close}}}@{at}") }
+        } else {
+            self.site_named(&format!("t{j}"), time, via, bare_time)
+        }
+    }
+    fn program(&self) -> String {
+        let s = self.s;
+        let mut o = String::new();
+        o.push_str("let zz = 0.0\n");
+        if self.mono {
+            o.push_str("let acc = 0.0\n");
+        }
+        for (i, t) in s.tasks.iter().enumerate() {
+            if t.form != 2 {
+                o.push_str(&format!("let c{i} = 0.0\n"));
+            }
+            if s.abs_chain(i) {
+                let t0 = s.globals.iter().find(|g| g.task == i).map(|g| g.t).unwrap_or(1.0);
+                o.push_str(&format!("let tt{i} = {}\n", num(t0)));
+            }
+        }
+        o.push_str("fn nop(){\n    zz = zz + 0.0\n}\n");
+        // spawn targets have larger indices: define them first
+        for (i, t) in s.tasks.iter().enumerate().rev() {
+            match t.form {
+                0 => {
+                    let body = self.body(i, "    ");
+                    o.push_str(&format!("fn t{i}(){{\n{body}\n}}\n"));
+                }
+                2 => {
+                    let g = s.globals.iter().find(|g| g.task == i).unwrap();
+                    let time = if g.abs { num(g.t) } else { format!("now + {}", num(g.t)) };
+                    let first = self.site_named("g", &time, g.via, g.abs);
+                    let body = self.body(i, "        ");
+                    o.push_str(&format!("fn mk{i}(){{\n    let x = 0.0\n    letrec g = | |{{\n{body}\n    }}\n    {first}\n    | |{{ x }}\n}}\n"));
+                }
+                _ => {}
+            }
+        }
+        for g in &s.globals {
+            let i = g.task;
+            if s.tasks[i].form == 2 {
+                o.push_str(&format!("let get{i} = mk{i}()\n"));
+            } else if s.abs_chain(i) {
+                o.push_str(&self.site_named(&format!("t{i}"), &format!("tt{i}"), g.via, true));
+                o.push('\n');
+            } else {
+                let time = if g.abs { num(g.t) } else { format!("now + {}", num(g.t)) };
+                o.push_str(&self.site(i, &time, g.via, "    ", g.abs));
+                o.push('\n');
+            }
+        }
+        o.push_str("fn dsp(){\n");
+        for d in &s.dsps {
+            let site = self.site(d.task, &format!("now + {}", num(d.d)), d.via, "        ", false);
+            o.push_str(&format!("    if (now == {}) {{ {site} }} else {{ nop() }}\n", num(d.at as f64)));
+        }
+        if self.mono {
+            o.push_str("    acc\n");
+        } else {
+            let outs: Vec<String> = (0..s.tasks.len()).map(|i| if s.tasks[i].form == 2 { format!("get{i}()") } else { format!("c{i}") }).collect();
+            if outs.len() == 1 {
+                o.push_str(&format!("    {}\n", outs[0]));
+            } else {
+                o.push_str(&format!("    ({})\n", outs.join(", ")));
+            }
+        }
+        o.push_str("}\n");
+        o
+    }
+}
+
+/// (source, effective one-channel mode, digit shifts)
+fn render(s: &Spec, sim: &Sim) -> (String, bool, Vec<u32>) {
+    let mut shifts = vec![];
+    let mut acc = 0u32;
+    for b in &sim.bits {
+        shifts.push(acc);
+        acc += b;
+    }
+    let mono = s.mono && acc <= 52;
+    let weights: Vec<f64> = shifts.iter().map(|sh| if *sh < 60 { (1u64 << sh) as f64 } else { 0.0 }).collect();
+    let r = Rend { s, mono, weights };
+    (r.program(), mono, shifts)
+}
+
+fn expected_words(sim: &Sim, mono: bool, shifts: &[u32]) -> Vec<Vec<u64>> {
+    sim.counts
+        .iter()
+        .map(|c| {
+            if mono {
+                let v: u64 = c.iter().zip(shifts).map(|(k, sh)| k << sh).sum();
+                vec![(v as f64).to_bits()]
+            } else {
+                c.iter().map(|k| (*k as f64).to_bits()).collect()
+            }
+        })
+        .collect()
+}
+
+/// decode one output sample into per-task counts
+fn decode(words: &[u64], mono: bool, shifts: &[u32], bits: &[u32]) -> Option<Vec<u64>> {
+    let as_count = |w: u64| -> Option<u64> {
+        let f = f64::from_bits(w);
+        if f.is_finite() && f >= 0.0 && f.fract() == 0.0 && f < 9.0e15 { Some(f as u64) } else { None }
+    };
+    if mono {
+        let v = as_count(*words.first()?)?;
+        Some(shifts.iter().zip(bits).map(|(sh, b)| (v >> sh) & ((1u64 << b) - 1)).collect())
+    } else {
+        words.iter().map(|w| as_count(*w)).collect()
+    }
+}
+
+// ---------------------------------------------------------------------------------------- oracle
+
+struct Verdict {
+    fail: Option<(String, String)>,
+    wasm: &'static str,
+    tolerated: bool,
+}
+
+fn site_of(stage: &str, p: &crate::engine::panics::PanicInfo, backend: &str) -> String {
+    let sig = p.signature();
+    let st = if stage.starts_with("dsp@") { "dsp" } else { stage };
+    format!("c11:panic:{backend}-{st}:{}", sig.strip_prefix("panic:").unwrap_or(&sig))
+}
+
+fn fmt_words(w: &[u64]) -> String {
+    format!("{:?}", w.iter().map(|x| f64::from_bits(*x)).collect::<Vec<_>>())
+}
+
+/// VM against the expected words (when given), then WASM against the VM
+fn judge(src: &str, n: u64, expect: Option<(&[Vec<u64>], bool, &[u32], &[u32])>, spec: Option<&Spec>, wasm_safe: bool, cx: &Cx) -> Verdict {
+    let mut v = Verdict { fail: None, wasm: "wasm:not-run", tolerated: false };
+    let inputs = Inputs { kind: 0, scale: 0.0 };
+    let o = RunOpts { n, sched: true, want_state: false, want_counts: false, want_trace: false };
+    macro_rules! fail {
+        ($sig:expr, $($arg:tt)*) => {{ v.fail = Some(($sig.to_string(), format!($($arg)*))); return v; }};
+    }
+    let a = match exec::run_vm(src, &inputs, &o) {
+        Exec::Ran(a) => a,
+        Exec::Panic(stage, p) => fail!(site_of(&stage, &p, "vm"), "VM {stage}: {}", p.describe()),
+        Exec::Rejected(d) => fail!("c11:program-rejected", "the VM front end rejects the program: {}", d.first().map(|x| format!("{} {:?}", x.message, x.labels)).unwrap_or_default()),
+        Exec::NoIo => fail!("c11:program-rejected", "no dsp I/O information"),
+        Exec::Error(st, e) => fail!("c11:vm-error", "VM {st}: {e}"),
+    };
+    if a.samples.len() as u64 != n {
+        fail!("c11:vm-differs-from-model:other", "VM produced {} samples for {n} requested", a.samples.len());
+    }
+    if let Some((exp, mono, shifts, bits)) = expect {
+        for (t, (x, e)) in a.samples.iter().zip(exp.iter()).enumerate() {
+            if x != e {
+                // classify by the first task whose count is off
+                let mut kind = "other";
+                let mut detail = String::new();
+                let dec: Option<Vec<Vec<u64>>> = a.samples.iter().map(|w| decode(w, mono, shifts, bits)).collect();
+                let dexp: Option<Vec<Vec<u64>>> = exp.iter().map(|w| decode(w, mono, shifts, bits)).collect();
+                if let (Some(da), Some(de)) = (dec, dexp) {
+                    if da.iter().all(|r| r.len() == de[0].len()) {
+                        if let Some(i) = (0..de[t].len()).find(|i| da[t][*i] != de[t][*i]) {
+                            let (fa, fe) = (da.last().unwrap()[i], de.last().unwrap()[i]);
+                            // what the model reaches within 16 more samples: a run that is merely
+                            // early near the end of the window is not a duplicate
+                            let fe_ext = spec
+                                .and_then(|s| simulate(&Spec { n: s.n + 16, ..s.clone() }).ok())
+                                .and_then(|x| x.counts.last().map(|c| c[i]))
+                                .unwrap_or(fe);
+                            kind = if da[t][i] > de[t][i] {
+                                if fa > fe_ext { "duplicated" } else { "early" }
+                            } else if fa < fe {
+                                "dropped"
+                            } else {
+                                "late"
+                            };
+                            detail = format!(" (task {i}: ran {} times before dsp of sample {t}, the model says {}; by the last sample {fa} vs {fe})", da[t][i], de[t][i]);
+                        }
+                    }
+                }
+                fail!(format!("c11:vm-differs-from-model:{kind}"), "sample {t}: VM yields {} but the schedule model yields {}{detail}", fmt_words(x), fmt_words(e));
+            }
+        }
+    }
+    // ---- WASM against the VM
+    let tolerate = !cx.strict && cx.excluded(KF_WASM_TICK_CLOSURE) && !wasm_safe;
+    let mut wfail: Option<(String, String)> = None;
+    match exec::run_wasm(src, &inputs, &o) {
+        Exec::Ran(b) => {
+            if (a.n_in, a.n_out) != (b.n_in, b.n_out) {
+                wfail = Some(("c11:wasm-differs-from-vm".into(), format!("I/O channels differ: vm {}/{} wasm {}/{}", a.n_in, a.n_out, b.n_in, b.n_out)));
+            } else if let Some((t, rc)) = b.bad_rc.first() {
+                wfail = Some(("c11:wasm-differs-from-vm".into(), format!("WASM run_dsp returned {rc} at sample {t} (the VM ran)")));
+            } else {
+                for (t, (x, y)) in a.samples.iter().zip(b.samples.iter()).enumerate() {
+                    if x.len() != y.len() || x.iter().zip(y).any(|(p, q)| canon(*p) != canon(*q)) {
+                        wfail = Some(("c11:wasm-differs-from-vm".into(), format!("sample {t}: VM (= model) yields {} but WASM yields {}", fmt_words(x), fmt_words(y))));
+                        break;
+                    }
+                }
+                if wfail.is_none() && a.samples.len() != b.samples.len() {
+                    wfail = Some(("c11:wasm-differs-from-vm".into(), format!("WASM produced {} samples, VM {}", b.samples.len(), a.samples.len())));
+                }
+            }
+        }
+        Exec::Panic(stage, p) => wfail = Some((site_of(&stage, &p, "wasm"), format!("WASM {stage}: {} (the VM ran and matched the model)", p.describe()))),
+        Exec::Rejected(d) => wfail = Some(("c11:wasm-differs-from-vm".into(), format!("the WASM backend rejects the program: {}", d.first().map(|x| x.message.clone()).unwrap_or_default()))),
+        Exec::NoIo => wfail = Some(("c11:wasm-differs-from-vm".into(), "WASM: no dsp I/O information".into())),
+        Exec::Error(st, e) => wfail = Some(("c11:wasm-differs-from-vm".into(), format!("WASM {st} failed: {e}"))),
+    }
+    match wfail {
+        None => v.wasm = if wasm_safe { "wasm:agrees" } else { "wasm:agrees-despite-hazard" },
+        Some(f) => {
+            if tolerate {
+                v.tolerated = true;
+                v.wasm = "wasm:tolerated";
+            } else {
+                v.wasm = "wasm:differs";
+                v.fail = Some(f);
+            }
+        }
+    }
+    v
+}
+
+fn finish(s: &Spec, cx: &Cx, mode: &str) -> CaseResult {
+    let sim = match simulate(s) {
+        Ok(x) => x,
+        Err(e) => {
+            let why = if e.starts_with("precondition") { "precondition".to_string() } else { e };
+            return CaseResult::discard(format!("spec:{why}"));
+        }
+    };
+    let (src, mono, shifts) = render(s, &sim);
+    let exp = expected_words(&sim, mono, &shifts);
+    let direct = s.to_json();
+    let hash = hash64(format!("{src}\u{1}{}", s.n).as_bytes());
+    if cx.dry {
+        let mut r = CaseResult::discard("dry");
+        r.render = Some(json!({"text": src, "n": s.n, "spec": direct}));
+        r.direct = Some(direct);
+        return r;
+    }
+    let v = judge(&src, s.n, Some((&exp, mono, &shifts, &sim.bits)), Some(s), sim.wasm_safe, cx);
+    let mut r = match &v.fail {
+        Some((sig, m)) => CaseResult::fail(hash, sig.clone(), m.clone()),
+        None => CaseResult::held(hash),
+    };
+    if v.tolerated {
+        r.count(&format!("excluded_by_known_finding:{KF_WASM_TICK_CLOSURE}"), 1);
+    }
+    let mut cl: Vec<String> = vec![format!("mode:{mode}"), v.wasm.to_string(), (if mono { "out:mono" } else { "out:tuple" }).to_string()];
+    if sim.sched_global > 0 {
+        cl.push("origin:global".into());
+    }
+    if sim.sched_dsp > 0 {
+        cl.push("origin:dsp".into());
+    }
+    if sim.sched_task > 0 {
+        cl.push("origin:task".into());
+    }
+    if sim.equal_times {
+        cl.push("equal-times".into());
+    }
+    if sim.fractional {
+        cl.push("fractional-time".into());
+    }
+    if sim.max_chain >= 3 {
+        cl.push("chain>=3".into());
+    }
+    if sim.max_chain >= 16 {
+        cl.push("chain>=16".into());
+    }
+    if sim.fanout {
+        cl.push("fanout".into());
+    }
+    if sim.far_future {
+        cl.push("beyond-run-length".into());
+    }
+    if sim.max_pending >= 10 {
+        cl.push("pending>=10".into());
+    }
+    if sim.wasm_safe && sim.sched_dsp + sim.sched_task > 0 {
+        cl.push("wasm-checked-with-tick-origin".into());
+    }
+    for (i, t) in s.tasks.iter().enumerate() {
+        cl.push(["form:named", "form:inline-lambda", "form:letrec-closure"][t.form as usize].to_string());
+        if s.abs_chain(i) {
+            cl.push("chain:absolute-time".into());
+        }
+        if t.chain.as_ref().is_some_and(|c| c.limit.is_some()) {
+            cl.push("chain:bounded".into());
+        }
+        for v in t.chain.iter().map(|c| c.via).chain(t.spawns.iter().map(|x| x.via)) {
+            cl.push(["via:at", "via:schedule_at", "via:wrapper-lambda"][v as usize].to_string());
+        }
+    }
+    for v in s.globals.iter().map(|g| g.via).chain(s.dsps.iter().map(|d| d.via)) {
+        cl.push(["via:at", "via:schedule_at", "via:wrapper-lambda"][v as usize].to_string());
+    }
+    cl.sort();
+    cl.dedup();
+    r.classes = cl;
+    r.nontrivial = (sim.runs >= 3 && sim.equal_times && sim.max_chain >= 3) || r.is_fail();
+    if cx.render || r.is_fail() {
+        r.render = Some(json!({"text": src, "n": s.n, "task_runs": sim.runs, "expected_first_channel": exp.iter().map(|w| f64::from_bits(w[0])).collect::<Vec<_>>(), "wasm_expected_to_agree": sim.wasm_safe}));
+    }
+    r.direct = Some(direct);
+    r
+}
+
+/// hand-written source: VM against `expect` (rows of channel values, optional), WASM against VM
+fn finish_text(input: &Value, cx: &Cx) -> Option<CaseResult> {
+    let src = input.get("text")?.as_str()?;
+    let n = input.get("n").and_then(|v| v.as_u64()).unwrap_or(8);
+    let exp: Option<Vec<Vec<u64>>> = input.get("expect").and_then(|e| e.as_array()).map(|rows| rows.iter().map(|r| r.as_array().map(|c| c.iter().map(|x| x.as_f64().unwrap_or(f64::NAN).to_bits()).collect()).unwrap_or_default()).collect());
+    let hash = hash64(format!("{src}\u{1}{n}").as_bytes());
+    if cx.dry {
+        let mut r = CaseResult::discard("dry");
+        r.direct = Some(input.clone());
+        return Some(r);
+    }
+    // hazard unknown for free text: `tick_origin: true` marks the known-finding shape
+    let safe = !input.get("tick_origin").and_then(|v| v.as_bool()).unwrap_or(false);
+    let nb = exp.as_ref().and_then(|e| e.first().map(|r| r.len())).unwrap_or(0);
+    let bits = vec![52u32; nb];
+    let shifts = vec![0u32; nb];
+    let v = judge(src, n, exp.as_ref().map(|e| (e.as_slice(), false, shifts.as_slice(), bits.as_slice())), None, safe, cx);
+    let mut r = match &v.fail {
+        Some((sig, m)) => CaseResult::fail(hash, sig.clone(), m.clone()),
+        None => CaseResult::held(hash),
+    };
+    if v.tolerated {
+        r.count(&format!("excluded_by_known_finding:{KF_WASM_TICK_CLOSURE}"), 1);
+    }
+    r.classes = vec!["mode:text".into(), v.wasm.to_string()];
+    r.render = Some(input.clone());
+    r.direct = Some(input.clone());
+    Some(r)
+}
+
+// ------------------------------------------------------------------------------------- generator
+
+const FRACS: [f64; 8] = [0.0, 0.0, 0.5, 0.25, 0.75, 0.9, 0.999, 0.125];
+const DELAYS: [f64; 10] = [1.0, 2.0, 1.5, 3.0, 5.0, 2.75, 1.999, 4.0, 8.0, 13.25];
+const PERIODS: [f64; 9] = [1.0, 2.0, 1.5, 3.0, 2.5, 1.25, 7.0, 1.75, 4.0];
+
+fn gen_via(g: &mut Gen) -> u8 {
+    g.weighted(&[5, 2, 2]) as u8
+}
+
+fn gen_spec(g: &mut Gen, tier: Tier) -> Spec {
+    let n = match tier {
+        Tier::Quick => *g.pick(&[16u64, 8, 32, 12, 24, 64, 48]),
+        Tier::Thorough => *g.pick(&[16u64, 8, 32, 12, 24, 64, 48, 100, 200, 5]),
+    };
+    // 0 = everything, 1 = global-scope tasks only (many pending), 2 = shapes the WASM runtime handles
+    let profile = g.weighted(&[4, 2, 3]);
+    let nt = match profile {
+        1 => g.int(1, MAX_TASKS as i64) as usize,
+        _ => g.int(1, 6) as usize,
+    };
+    let mono = match profile {
+        2 => g.bool(5, 6),
+        _ => g.coin(),
+    };
+    let mut tasks: Vec<TaskSpec> = vec![];
+    // profile 2: at most one task reschedules itself and nothing else is created while a sample runs
+    let lone_chain = if profile == 2 && g.bool(4, 5) { Some(g.usize_below(nt)) } else { None };
+    for i in 0..nt {
+        let t = g.span(|g| {
+            let mut form = match profile {
+                1 => g.weighted(&[6, 3, 0]),
+                _ => g.weighted(&[6, 2, 2]),
+            } as u8;
+            let want_chain = match profile {
+                0 => g.bool(1, 2),
+                1 => false,
+                _ => lone_chain == Some(i),
+            };
+            let chain = if want_chain {
+                if form == 1 {
+                    form = 0;
+                }
+                let p = *g.pick(&PERIODS);
+                let abs = form == 0 && g.bool(1, 4);
+                let limit = if g.bool(1, 2) { Some(g.int(1, (n as f64 / p) as i64 + 2) as u32) } else { None };
+                Some(Chain { p, abs, limit, via: gen_via(g) })
+            } else {
+                None
+            };
+            TaskSpec { form, chain, spawns: vec![] }
+        });
+        tasks.push(t);
+    }
+    let mut s = Spec { n, mono, tasks, globals: vec![], dsps: vec![] };
+    // spawns (general profile only), towards larger indices
+    if profile == 0 {
+        for i in 0..nt {
+            let targets: Vec<usize> = (i + 1..nt).filter(|j| s.spawnable(*j)).collect();
+            if targets.is_empty() {
+                continue;
+            }
+            let k = g.weighted(&[5, 3, 2, 1]);
+            let chained = s.tasks[i].chain.is_some();
+            let sp = g.vec(k.min(1), k, |g| {
+                let to = *g.pick(&targets);
+                let d = *g.pick(&DELAYS);
+                let on = if chained && g.bool(3, 4) { Some(g.int(1, 4) as u32) } else { None };
+                Spawn { to, d, on, via: gen_via(g) }
+            });
+            s.tasks[i].spawns = sp;
+        }
+    }
+    // global sites: mandatory ones first (makers, absolute-time chains), then free ones; shuffled
+    let mut used_times: Vec<f64> = vec![];
+    let gen_time = |g: &mut Gen, used: &mut Vec<f64>| -> f64 {
+        let base = if !used.is_empty() && g.bool(2, 5) {
+            used[g.usize_below(used.len())].floor()
+        } else if g.bool(1, 14) {
+            *g.pick(&[n as f64, n as f64 + 5.0, 1000000.0, n as f64 - 1.0])
+        } else {
+            g.int_small(1, (n as i64 - 1).max(1)) as f64
+        };
+        let t = base.max(1.0) + *g.pick(&FRACS);
+        used.push(t);
+        t
+    };
+    let mut sites: Vec<GSite> = vec![];
+    for i in 0..nt {
+        if s.tasks[i].form == 2 || s.abs_chain(i) {
+            let t = gen_time(g, &mut used_times);
+            let abs = s.abs_chain(i) || g.bool(4, 5);
+            sites.push(GSite { task: i, abs, t, via: gen_via(g) });
+        }
+    }
+    let free: Vec<usize> = (0..nt).filter(|i| s.tasks[*i].form != 2 && !s.abs_chain(*i)).collect();
+    if !free.is_empty() {
+        let (lo, hi) = match profile {
+            1 => (2, 24),
+            2 => (1, 8),
+            _ => (0, 6),
+        };
+        let extra = g.vec(lo, hi, |g| {
+            let task = *g.pick(&free);
+            let t = gen_time(g, &mut used_times);
+            GSite { task, abs: g.bool(5, 6), t, via: gen_via(g) }
+        });
+        sites.extend(extra);
+    }
+    let perm = g.perm(sites.len());
+    s.globals = perm.into_iter().map(|k| sites[k].clone()).collect();
+    // dsp sites
+    let dsp_targets: Vec<usize> = (0..nt).filter(|j| s.spawnable(*j)).collect();
+    if !dsp_targets.is_empty() {
+        let hi = match profile {
+            0 => 3,
+            1 => 0,
+            _ => {
+                if lone_chain.is_none() { 1 } else { 0 }
+            }
+        };
+        let lo = if s.globals.is_empty() || (profile == 2 && lone_chain.is_none()) { 1.min(hi) } else { 0 };
+        s.dsps = g.vec(lo, hi, |g| DSite { at: g.int_small(0, n as i64 - 1) as u64, task: *g.pick(&dsp_targets), d: *g.pick(&DELAYS), via: gen_via(g) });
+    }
+    if s.globals.is_empty() && s.dsps.is_empty() {
+        // nothing would ever run: schedule the first free task once
+        if let Some(i) = free.first() {
+            s.globals.push(GSite { task: *i, abs: true, t: 1.0, via: 0 });
+        }
+    }
+    s
+}
+
+const GRID_TIMES: [f64; 6] = [1.0, 1.5, 2.0, 2.999, 3.0, 4.25];
+
+fn grid_spec(index: u64) -> Spec {
+    let k = GRID_TIMES.len() as u64;
+    let (a, b, c) = (index % k, (index / k) % k, (index / (k * k)) % k);
+    let leaf = TaskSpec { form: 0, chain: None, spawns: vec![] };
+    let chain = TaskSpec { form: 0, chain: Some(Chain { p: 1.0, abs: false, limit: Some(3), via: 0 }), spawns: vec![] };
+    Spec {
+        n: 8,
+        mono: (a + b + c) % 2 == 0,
+        tasks: vec![leaf.clone(), leaf, chain],
+        globals: vec![
+            GSite { task: 0, abs: true, t: GRID_TIMES[a as usize], via: 0 },
+            GSite { task: 1, abs: true, t: GRID_TIMES[b as usize], via: 1 },
+            GSite { task: 2, abs: true, t: GRID_TIMES[c as usize], via: 0 },
+        ],
+        dsps: vec![],
+    }
+}
+
+// ---------------------------------------------------------------------------------------- shrink
+
+fn drop_task(s: &Spec, k: usize) -> Option<Spec> {
+    // only a task nothing refers to can go
+    if s.tasks.len() <= 1 || s.globals.iter().any(|g| g.task == k) || s.dsps.iter().any(|d| d.task == k) || s.tasks.iter().any(|t| t.spawns.iter().any(|x| x.to == k)) {
+        return None;
+    }
+    let mut o = s.clone();
+    o.tasks.remove(k);
+    let fix = |i: &mut usize| {
+        if *i > k {
+            *i -= 1
+        }
+    };
+    for t in o.tasks.iter_mut() {
+        for x in t.spawns.iter_mut() {
+            fix(&mut x.to);
+        }
+    }
+    for g in o.globals.iter_mut() {
+        fix(&mut g.task);
+    }
+    for d in o.dsps.iter_mut() {
+        fix(&mut d.task);
+    }
+    Some(o)
+}
+
+fn shrink_spec(s: &Spec) -> Vec<Spec> {
+    let mut out = vec![];
+    for k in 0..s.globals.len() {
+        let mut o = s.clone();
+        o.globals.remove(k);
+        out.push(o);
+    }
+    for k in 0..s.dsps.len() {
+        let mut o = s.clone();
+        o.dsps.remove(k);
+        out.push(o);
+    }
+    for i in 0..s.tasks.len() {
+        for k in 0..s.tasks[i].spawns.len() {
+            let mut o = s.clone();
+            o.tasks[i].spawns.remove(k);
+            out.push(o);
+        }
+        if s.tasks[i].chain.is_some() {
+            let mut o = s.clone();
+            o.tasks[i].chain = None;
+            out.push(o);
+        }
+    }
+    for k in (0..s.tasks.len()).rev() {
+        out.extend(drop_task(s, k));
+    }
+    for m in [s.n / 2, s.n.saturating_sub(1)] {
+        if m >= 1 && m < s.n {
+            let mut o = s.clone();
+            o.n = m;
+            o.dsps.retain(|d| d.at < m);
+            out.push(o);
+        }
+    }
+    // simplify in place
+    for i in 0..s.tasks.len() {
+        let t = &s.tasks[i];
+        if t.form != 0 {
+            let mut o = s.clone();
+            o.tasks[i].form = 0;
+            out.push(o);
+        }
+        if let Some(c) = &t.chain {
+            let simpler = [Chain { limit: None, ..c.clone() }, Chain { limit: c.limit.map(|l| l / 2 + 1), ..c.clone() }, Chain { abs: false, ..c.clone() }, Chain { via: 0, ..c.clone() }, Chain { p: c.p.floor(), ..c.clone() }, Chain { p: 1.0, ..c.clone() }];
+            for c2 in simpler {
+                if &c2 != c {
+                    let mut o = s.clone();
+                    o.tasks[i].chain = Some(c2);
+                    out.push(o);
+                }
+            }
+        }
+        for k in 0..t.spawns.len() {
+            let x = &t.spawns[k];
+            let simpler = [Spawn { on: None, ..x.clone() }, Spawn { via: 0, ..x.clone() }, Spawn { d: x.d.floor(), ..x.clone() }, Spawn { d: 1.0, ..x.clone() }];
+            for x2 in simpler {
+                if &x2 != x {
+                    let mut o = s.clone();
+                    o.tasks[i].spawns[k] = x2;
+                    out.push(o);
+                }
+            }
+        }
+    }
+    for k in 0..s.globals.len() {
+        let x = &s.globals[k];
+        let simpler = [GSite { abs: true, ..x.clone() }, GSite { via: 0, ..x.clone() }, GSite { t: x.t.floor(), ..x.clone() }, GSite { t: (x.t / 2.0).floor().max(1.0), ..x.clone() }];
+        for x2 in simpler {
+            if &x2 != x {
+                let mut o = s.clone();
+                o.globals[k] = x2;
+                out.push(o);
+            }
+        }
+    }
+    for k in 0..s.dsps.len() {
+        let x = &s.dsps[k];
+        let simpler = [DSite { via: 0, ..x.clone() }, DSite { d: x.d.floor(), ..x.clone() }, DSite { d: 1.0, ..x.clone() }, DSite { at: x.at / 2, ..x.clone() }, DSite { at: 0, ..x.clone() }];
+        for x2 in simpler {
+            if &x2 != x {
+                let mut o = s.clone();
+                o.dsps[k] = x2;
+                out.push(o);
+            }
+        }
+    }
+    if s.mono {
+        let mut o = s.clone();
+        o.mono = false;
+        out.push(o);
+    }
+    out.retain(|o| o.validate().is_ok());
+    out
+}
+
+// ------------------------------------------------------------------------------------------ prop
+
+impl Prop for C11 {
+    fn id(&self) -> &'static str {
+        "C11"
+    }
+    fn spaces(&self, tier: Tier) -> Vec<Space> {
+        let grid = Space { name: "grid", size: 216, exhaustive: true, chunk: 54, case_timeout_s: 30.0, what: "three tasks scheduled from global scope, every triple of times from {1, 1.5, 2, 2.999, 3, 4.25} (one task is a 3-step chain)" };
+        match tier {
+            Tier::Quick => vec![grid, Space { name: "rand", size: 1800, exhaustive: false, chunk: 100, case_timeout_s: 30.0, what: "generated task multisets (global / dsp / task origins, chains, spawns, equal and fractional times) x run lengths" }],
+            Tier::Thorough => vec![grid, Space { name: "rand", size: 60_000, exhaustive: false, chunk: 400, case_timeout_s: 30.0, what: "generated task multisets (global / dsp / task origins, chains, spawns, equal and fractional times) x run lengths" }],
+        }
+    }
+    fn run(&self, space: &str, index: u64, g: &mut Gen, cx: &Cx) -> CaseResult {
+        match space {
+            "grid" => finish(&grid_spec(index), cx, "grid"),
+            _ => {
+                let s = gen_spec(g, cx.tier);
+                finish(&s, cx, "rand")
+            }
+        }
+    }
+    fn run_direct(&self, input: &Value, cx: &Cx) -> Option<CaseResult> {
+        if input.get("text").is_some() {
+            return finish_text(input, cx);
+        }
+        let s = Spec::from_json(input)?;
+        Some(finish(&s, cx, "direct"))
+    }
+    fn shrink_direct(&self, input: &Value) -> Vec<Value> {
+        if let Some(t) = input.get("text").and_then(|v| v.as_str()) {
+            let mut out = vec![];
+            if input.get("expect").is_none() {
+                for s in crate::props::c01::line_candidates(t) {
+                    let mut v = input.clone();
+                    v["text"] = json!(s);
+                    out.push(v);
+                }
+            }
+            return out;
+        }
+        match Spec::from_json(input) {
+            Some(s) => shrink_spec(&s).iter().map(|x| x.to_json()).collect(),
+            None => vec![],
+        }
+    }
+    fn rule(&self) -> String {
+        "A case is a task multiset: up to 8 task definitions (named function / inline lambda / letrec closure with a local counter made by a maker function), each with an optional self-rescheduling chain (period >= 1, `now + p` or an accumulating absolute-time variable, optionally bounded by the task's own run count) and up to 3 spawns of later tasks (delay >= 1, optionally only on the k-th run); scheduling sites at global scope (literal or `now + t` times, equal times reused on purpose, fractional parts, times at or beyond the run length, order permuted), in dsp (`if (now == s) {..}`) and in running tasks; three syntactic forms (`f@t`, `_mimium_schedule_at(t, f)`, `| |{ f() }@t`). Effects are commutative: each task increments its own counter and adds its own power of two to a shared accumulator; dsp returns the accumulator (one channel) or the tuple of counters. Every scheduled time truncates to a sample later than the current one (documented precondition). Oracle: a reference schedule model (multiset of pending (floor(time), task); at sample t, before dsp, every task with floor(time) == t runs exactly once, what it schedules joins the multiset) gives the expected output words of every sample; the VM must equal the model bit for bit, the WASM runtime must equal the VM; a panic of either runtime is a failure. Non-trivial = >= 3 task runs, >= 2 runs at one sample, and a rescheduling chain of length >= 3; distinct by source + run length. Run length 8..64 samples (thorough: up to 200).".into()
+    }
+    fn assumptions(&self) -> Vec<String> {
+        vec![
+            "both runtimes are driven through DspRuntime::run_dsp(Time(t)) for t = 0, 1, 2, ... with the scheduler plugin installed (RunOpts.sched), as the audio drivers do".into(),
+            "`now` read inside a running task equals the index of the sample being started (pinned by the scheduler_* fixtures); chains of the `now + p` form rely on it".into(),
+            "a time whose truncation equals the current sample (e.g. now + 0.5) is outside the domain (the sample's start has passed); such times are never generated".into(),
+            format!("{KF_WASM_TICK_CLOSURE}: while the exclusion is on, a WASM/VM difference is tolerated (and counted) only for programs in which the model sees a closure created during a sample while another such closure is still pending, two created by one activation, or any created at all when dsp returns a tuple; all other programs are compared strictly"),
+            "`if` without `else` around a scheduling call makes the VM bytecode generator panic (\"value none not found\"); sites are therefore written `if (c) { f@t } else { nop() }`".into(),
+        ]
+    }
+    fn required_classes(&self, _tier: Tier) -> Vec<&'static str> {
+        vec!["origin:global", "origin:dsp", "origin:task", "equal-times", "fractional-time", "chain>=3", "fanout", "out:mono", "out:tuple", "wasm:agrees", "wasm-checked-with-tick-origin", "beyond-run-length", "via:at", "via:schedule_at", "via:wrapper-lambda", "form:named", "form:inline-lambda", "form:letrec-closure", "chain:absolute-time", "chain:bounded"]
+    }
 }
